@@ -290,6 +290,86 @@ func c03Mutations(g c03Group, yield func(i int, desc string, mk func() []byte) b
 				}
 			}
 		}
+	case "forged-tiny":
+		// A stream made of the seed's header, ONE forged block and the end marker. The block declares
+		// a pre-entropy length P and carries L bytes of codec data whose leading 1/2/4-byte field
+		// (where codecs keep their own decoded-size / index / mode fields) takes boundary values.
+		// Reaches the "declared size 0 / 1 / tiny" paths that substitutions on valid blocks cannot.
+		b0 := ks.Blocks[0]
+		orig := func(k int) byte {
+			if b0.DataBit+8*k+8 <= b0.PayloadBit+b0.PayloadBits {
+				return byte(getBits(stream, b0.DataBit+8*k, 8))
+			}
+			return byte(k * 37)
+		}
+		ckBytes := int(g.P.Checksum / 8)
+		lens := []int{1, 2, 3, 4, 5, 6, 7, 8, 9, 10, 11, 12, 13, 14, 15, 16, 17, 20, 24, 32, 64}
+		fills := []string{"zero", "orig", "ff"}
+		if g.Arg > 0 {
+			fills = fills[:g.Arg]
+		}
+		for _, L := range lens {
+			pres := []int{L}
+			if g.P.Entropy != "NONE" {
+				pres = []int{1, 16, 300}
+			}
+			for _, pre := range pres {
+				for _, w := range []int{1, 2, 4} {
+					if w > L {
+						continue
+					}
+					top := uint64(1)<<uint(8*w) - 1
+					for _, v := range []uint64{0, 1, 2, uint64(L), uint64(L - w), top >> 1, top} {
+						if v > top {
+							continue
+						}
+						for _, le := range []bool{false, true} {
+							if w == 1 && le {
+								continue
+							}
+							for _, fill := range fills {
+								L, pre, w, v, le, fill := L, pre, w, v, le, fill
+								if !emit(fmt.Sprintf("forged single block: declared pre-entropy length %d, %d bytes of codec data, leading %d-byte field = %d (little-endian=%v), rest %s", pre, L, w, v, le, fill), func() []byte {
+									pay := []byte{0x00, byte(pre)}
+									if pre > 255 {
+										pay = []byte{0x20, byte(pre >> 8), byte(pre)}
+									}
+									for i := 0; i < ckBytes; i++ {
+										pay = append(pay, byte(0xA5+i))
+									}
+									for k := 0; k < L; k++ {
+										var x byte
+										switch {
+										case k < w && le:
+											x = byte(v >> uint(8*k))
+										case k < w:
+											x = byte(v >> uint(8*(w-1-k)))
+										case fill == "orig":
+											x = orig(k)
+										case fill == "ff":
+											x = 0xFF
+										}
+										pay = append(pay, x)
+									}
+									bw := &bitWriter{}
+									bw.copyBits(stream, 0, ks.Hdr.Bits)
+									bw.bits(16-3, 5)
+									bw.bits(uint64(8*len(pay)), 16)
+									for _, x := range pay {
+										bw.bits(uint64(x), 8)
+									}
+									bw.bits(0, 8) // end marker
+									bw.bits(0, 64)
+									return bw.b
+								}) {
+									return nil
+								}
+							}
+						}
+					}
+				}
+			}
+		}
 	case "payload-stride":
 		for bi := range ks.Blocks {
 			b := ks.Blocks[bi]
@@ -375,11 +455,11 @@ func init() {
 				nontrivial++
 			}
 			// no goroutine may be left behind (spinning or blocked)
-			for w := 0; runtime.NumGoroutine() > base && w < 400; w++ {
+			for w := 0; runtime.NumGoroutine() > base && w < 4000; w++ {
 				time.Sleep(5 * time.Millisecond)
 			}
 			if ng := runtime.NumGoroutine(); ng > base {
-				fmt.Fprintf(out, "V %d goroutine-leak %d goroutines still alive 2s after the reader was closed\n", i, ng-base)
+				fmt.Fprintf(out, "V %d goroutine-leak %d goroutines still alive 20s after the reader was closed\n", i, ng-base)
 				base = ng
 			}
 			n++
@@ -473,7 +553,17 @@ func superviseGroup(c *Ctx, g c03Group, silence time.Duration) {
 			return
 		}
 		if hung {
-			report(cur, "hang", fmt.Sprintf("the reader did not return within %v: %s", silence, curDesc))
+			// a silent worker may just be starved (machine under load, large legitimate allocation):
+			// the case is run again on its own with three times the allowance before it is believed
+			if !c03ConfirmHang(g, cur, 3*silence) {
+				c.AddExtra("slow_cases_that_finished_when_rerun", 1)
+				for k := start; k <= cur; k++ {
+					c.Count(fmt.Sprintf("C03|%s|%d", g, k), true)
+				}
+				start = cur + 1
+				continue
+			}
+			report(cur, "hang", fmt.Sprintf("the reader did not return within %v, and again not within %v when the case was run on its own: %s", silence, 3*silence, curDesc))
 			hangs++
 			if hangs >= 2 {
 				c.Capped("group " + g.String() + " abandoned after 2 hangs")
@@ -516,6 +606,28 @@ func superviseGroup(c *Ctx, g c03Group, silence time.Duration) {
 	}
 }
 
+// c03ConfirmHang re-runs one mutation in a fresh worker; true = it is silent again for `allow`.
+func c03ConfirmHang(g c03Group, idx int, allow time.Duration) bool {
+	exe, _ := os.Executable()
+	g.Only = idx
+	gj, _ := json.Marshal(g)
+	cmd := exec.Command(exe, "c03worker", string(gj), "0")
+	cmd.Env = append(os.Environ(), "GOMAXPROCS=4", "GOTRACEBACK=single")
+	if err := cmd.Start(); err != nil {
+		return true
+	}
+	done := make(chan struct{})
+	go func() { cmd.Wait(); close(done) }()
+	select {
+	case <-done:
+		return false // finished (or died: a death is reported by the normal path of a later run)
+	case <-time.After(allow):
+		cmd.Process.Kill()
+		<-done
+		return true
+	}
+}
+
 var famC03 = NewFamily("C03.group", func(g c03Group) (*Fail, bool) {
 	// replay: run the single mutation in a worker
 	c := newCtx("C03", "quick", "fault_enumeration")
@@ -528,7 +640,7 @@ var famC03 = NewFamily("C03.group", func(g c03Group) (*Fail, bool) {
 
 func init() {
 	register("C03", "fault_enumeration", func(c *Ctx) {
-		c.Rule("seed streams = every transform x {NONE,HUFFMAN} and every entropy codec (B=1024, 4 blocks) + larger blocks + a 4 MiB+ BWT block; mutation classes, each enumerated completely: every header field x boundary values (all 32 entropy ids, every transform slot x 0..63, versions, checksum size, block sizes incl. 1 GiB, size hints) with the header checksum recomputed and not; per block every length width 3..34 x boundary lengths; all 256 mode bytes and all 256 second bytes; pre-entropy length boundaries; every byte of the first 32-48 bytes of codec data x 8 substitutions; every 2/3/4-byte field in the first 8-24 bytes x both byte orders x values tied to the block geometry; every BWT chunk primary index x boundary values around the block length (> 4 MiB block); bit flips on a stride; truncations on a stride; garbage. Reader jobs {1,2,8}. Each case runs in a worker process: oracle = the worker survives (no panic/fatal error, also from helper goroutines), answers within the silence watchdog (120 s), no panic escapes Read, no goroutine is left alive after Close. Non-trivial = the mutation changed the outcome (error or no clean EOF)")
+		c.Rule("seed streams = every transform x {NONE,HUFFMAN} and every entropy codec (B=1024, 4 blocks) + larger blocks + a 4 MiB+ BWT block; mutation classes, each enumerated completely: every header field x boundary values (all 32 entropy ids, every transform slot x 0..63, versions, checksum size, block sizes incl. 1 GiB, size hints) with the header checksum recomputed and not; per block every length width 3..34 x boundary lengths; all 256 mode bytes and all 256 second bytes; pre-entropy length boundaries; every byte of the first 32-48 bytes of codec data x 8 substitutions; every 2/3/4-byte field in the first 8-24 bytes x both byte orders x values tied to the block geometry; every BWT chunk primary index x boundary values around the block length (> 4 MiB block); forged single-block streams (seed header + one block of 1..64 bytes of codec data whose leading 1/2/4-byte field takes boundary values, declared length matching, with and without block checksum); bit flips on a stride; truncations on a stride; garbage. Reader jobs {1,2,8}. Each case runs in a worker process: oracle = the worker survives (no panic/fatal error, also from helper goroutines), answers within the silence watchdog (60 s for blocks <= 64 KiB, else 120 s; a silent case is re-run on its own with three times the allowance before it is reported as a hang), no panic escapes Read, no goroutine is left alive after Close. Non-trivial = the mutation changed the outcome (error or no clean EOF)")
 		c.Assume("forged sizes are kept where legitimate allocation stays below the worker's 40 GiB address-space limit")
 		var groups []c03Group
 		add := func(g c03Group) { g.Only = -1; groups = append(groups, g) }
@@ -555,18 +667,28 @@ func init() {
 			case "UTF":
 				sh = "utf8-3"
 			}
-			p := Params{k.t, k.e, 4096, 2, 32, -1, false}
+			p := Params{k.t, k.e, 4096, 2, 32, -1, false, false}
 			for _, j := range pick(c, []uint{2}, []uint{1, 2, 8}) {
 				add(c03Group{P: p, Shape: sh, Len: 3*4096 + 500, Jobs: j, Class: "payload-head", Arg: pick(c, 32, 48)})
 				add(c03Group{P: p, Shape: sh, Len: 3*4096 + 500, Jobs: j, Class: "payload-stride", Arg: pick(c, 127, 13)})
 			}
 			add(c03Group{P: p, Shape: sh, Len: 4096 + 500, Jobs: 2, Class: "payload-head-words", Arg: pick(c, 8, 24)})
+			// the same without a block checksum (garbage that decodes "successfully" is then not
+			// stopped by the checksum comparison and reaches the result gathering of the caller)
+			p0 := Params{k.t, k.e, 4096, 2, 0, -1, false, false}
+			add(c03Group{P: p0, Shape: sh, Len: 4096 + 500, Jobs: 2, Class: "payload-head-words", Arg: pick(c, 8, 24)})
+			for _, j := range pick(c, []uint{2}, []uint{1, 2}) {
+				add(c03Group{P: p0, Shape: sh, Len: 4096 + 500, Jobs: j, Class: "forged-tiny", Arg: pick(c, 2, 3)})
+			}
+			if c.Thorough() {
+				add(c03Group{P: p, Shape: sh, Len: 4096 + 500, Jobs: 2, Class: "forged-tiny", Arg: 3})
+			}
 			if c.Thorough() || (k.t == "NONE" && k.e == "NONE") || (k.t == "LZ" && k.e == "HUFFMAN") || (k.t == "BWT" && k.e == "NONE") || (k.t == "TEXT" && k.e == "NONE") || (k.t == "NONE" && k.e == "ANS0") {
 				add(c03Group{P: p, Shape: sh, Len: 4096 + 500, Jobs: 1, Class: "modebyte"})
 			}
 		}
 		for _, j := range []uint{1, 2, 8} {
-			p := Params{"LZ", "HUFFMAN", 1024, 2, 32, 5000, false}
+			p := Params{"LZ", "HUFFMAN", 1024, 2, 32, 5000, false, false}
 			add(c03Group{P: p, Shape: "text", Len: 5000, Jobs: j, Class: "header"})
 			add(c03Group{P: p, Shape: "text", Len: 5000, Jobs: j, Class: "blockhdr"})
 			add(c03Group{P: p, Shape: "text", Len: 5000, Jobs: j, Class: "truncate", Arg: 7})
@@ -575,19 +697,19 @@ func init() {
 		// blocks spanning several internal chunks of the entropy codecs (per-chunk table headers
 		// at 16/32 KiB boundaries): strided flips over the whole payload
 		for _, e := range []string{"HUFFMAN", "ANS0", "ANS1", "RANGE", "FPAQ"} {
-			p := Params{"NONE", e, 65536, 2, 32, -1, false}
+			p := Params{"NONE", e, 65536, 2, 32, -1, false, false}
 			for sh := 0; sh < 2; sh++ {
 				add(c03Group{P: p, Shape: "text", Len: 40000, Jobs: 2, Class: "payload-stride", Arg: pick(c, 197, 61), Shard: sh, Shards: 2})
 			}
 		}
 		// larger blocks: 64 KiB for every transform that has size-dependent paths
 		for _, t := range []string{"BWT", "BWTS", "LZ", "LZX", "ROLZ", "ROLZX", "TEXT", "RLT"} {
-			p := Params{t, "NONE", 65536, 2, 32, -1, false}
+			p := Params{t, "NONE", 65536, 2, 32, -1, false, false}
 			add(c03Group{P: p, Shape: "text", Len: 65536 + 100, Jobs: 2, Class: "payload-head", Arg: pick(c, 24, 48)})
 		}
 		// > 4 MiB BWT block: the inverse runs in parallel helper goroutines
 		for _, t := range pick(c, []string{"BWT"}, []string{"BWT", "BWTS", "TEXT+UTF+BWT+RANK+ZRLT"}) {
-			p := Params{t, "NONE", 8 << 20, 1, 0, -1, false}
+			p := Params{t, "NONE", 8 << 20, 1, 0, -1, false, false}
 			for sh := 0; sh < 8; sh++ {
 				if t == "BWT" {
 					add(c03Group{P: p, Shape: "text", Len: 4<<20 + 4096, Jobs: pick(c, uint(1), uint(4)), Class: "bwt-index", Shard: sh, Shards: 8})
@@ -602,13 +724,21 @@ func init() {
 		sort.SliceStable(groups, func(a, b int) bool { return groups[a].Len > groups[b].Len })
 		var wg sync.WaitGroup
 		sem := make(chan struct{}, 14)
+		heavy := make(chan struct{}, 3) // groups whose forged sizes make the reader allocate up to 2 GiB
 		for _, g := range groups {
 			wg.Add(1)
 			sem <- struct{}{}
 			go func(g c03Group) {
 				defer wg.Done()
 				defer func() { <-sem }()
-				superviseGroup(c, g, 120*time.Second)
+				silence := 120 * time.Second
+				if g.Class == "blockhdr" || g.Class == "header" {
+					heavy <- struct{}{}
+					defer func() { <-heavy }()
+				} else if g.Len <= 100000 {
+					silence = 60 * time.Second
+				}
+				superviseGroup(c, g, silence)
 			}(g)
 		}
 		wg.Wait()
